@@ -13,6 +13,7 @@
 #include "common.hh"
 #include <map>
 #include <algorithm>
+#include <fcntl.h>
 
 using namespace Parma_Polyhedra_Library;
 typedef dimension_type dim_t;
@@ -220,6 +221,14 @@ struct TreeH {
   }
 };
 
+// functors for the combine*() templates (same contract for both row classes)
+struct F_scale { Coefficient c; void operator()(Coefficient& x) const { x *= c; } };
+struct F_zero { void operator()(Coefficient& x) const { x = 0; } };
+struct G_lin { Coefficient c1, c2; void operator()(Coefficient& x, cref y) const { x *= c1; x += c2 * y; } };
+struct G_mul { void operator()(Coefficient& x, cref y) const { x *= y; } };
+struct G_addmul { Coefficient c2; void operator()(Coefficient& x, cref y) const { x += c2 * y; } };
+struct H_lin { Coefficient c2; void operator()(Coefficient& x, cref y) const { x = c2 * y; } };
+
 // =================================================================================================
 //  Sparse_Row / Dense_Row histories
 // =================================================================================================
@@ -375,6 +384,14 @@ struct RowH {
         linear_combine(xs, D[b], c1, c2, s, e); linear_combine(xd, S[b], c1, c2, s, e);
       }
       out(o, "-", both(a) + sp("XS", a, xs) + dn("XD", a, xd));
+    }
+    else if (n == "comb") {      // combine / combine_needs_first / combine_needs_second with functors
+      int b = (int)o.l(1); long mode = o.l(2); Coefficient c1 = o.c(3), c2 = o.c(4);
+      if (!okslot(b) || b == a || S[b].size() != sz || c1 == 0 || c2 == 0) { --step; return; }
+      if (mode == 0) { F_scale f = { c1 }; G_lin g = { c1, c2 }; H_lin h = { c2 }; S[a].combine(S[b], f, g, h); D[a].combine(D[b], f, g, h); }
+      else if (mode == 1) { F_zero f; G_mul g; S[a].combine_needs_first(S[b], f, g); D[a].combine_needs_first(D[b], f, g); }
+      else { G_addmul g = { c2 }; H_lin h = { c2 }; S[a].combine_needs_second(S[b], g, h); D[a].combine_needs_second(D[b], g, h); }
+      out(o, "-", both(a));
     }
     else if (n == "swaprows") {
       int b = (int)o.l(1); if (!okslot(b)) { --step; return; }
@@ -745,6 +762,10 @@ static void gen_row(RowH& H, pplv::Rng& R, long len) {
       if (R.chance(1, 10)) c1 = G.coef(false);
       H.apply(mk("row", "lcr", { sa, sb, cs(c1), cs(c2), ls(s), ls(e) }));
     }
+    else if (x < 89) {
+      if (H.S[b].size() != H.S[a].size()) H.apply(mk("row", "resize", { sb, ls(sz) }));
+      H.apply(mk("row", "comb", { sa, sb, ls((long)R.below(3)), cs(G.small_nz()), cs(G.small_nz()) }));
+    }
     else if (x < 90) H.apply(mk("row", R.chance(1, 2) ? "swaprows" : "swapmix", { sa, sb }));
     else if (x < 92) H.apply(mk("row", R.chance(1, 2) ? "copy" : "conv", { sa, sb }));
     else if (x < 94) H.apply(mk("row", "convsz", { sa, sb, ls((long)H.S[b].size() + R.range(0, 3)), "0" }));
@@ -877,9 +898,25 @@ static void run_replay(const char* path) {
 
 int main(int argc, char** argv) {
   const char* rp = pplv::arg_str(argc, argv, "--replay", nullptr);
-  if (rp) return pplv::run_batches(0, 1, [&](long) { run_replay(rp); }, 60);
+  if (rp) return pplv::run_batches(0, 1, [&](long) { run_replay(rp); }, 20);
   long seed = pplv::arg_long(argc, argv, "--seed", 1), first = pplv::arg_long(argc, argv, "--first", 0),
        last = pplv::arg_long(argc, argv, "--last", 30), len = pplv::arg_long(argc, argv, "--len", 0),
        kf = pplv::arg_long(argc, argv, "--kf", 0);
-  return pplv::run_batches(first, last, [&](long b) { run_history(b, seed, len, kf != 0); }, 120);
+  // one forked child per history; a mutant that loops or crashes everywhere must not eat the time budget
+  int crashed = 0;
+  for (long b = first; b < last && crashed < 6; ++b) {
+    fflush(stdout);
+    off_t before = lseek(1, 0, SEEK_CUR);
+    pplv::run_batches(b, b + 1, [&](long bb) { run_history(bb, seed, len, kf != 0); }, 10);
+    // run_batches appends "crash …" itself; detect it through the exit status it leaves in the journal
+    if (before >= 0) {
+      off_t after = lseek(1, 0, SEEK_CUR);
+      if (after > before) {
+        char tail[16] = {0}; int fd = open("/proc/self/fd/1", O_RDONLY);
+        if (fd >= 0) { if (after >= 4) { lseek(fd, after - 4, SEEK_SET); if (read(fd, tail, 4) == 4 && !strncmp(tail, "end\n", 4)) ++crashed; } close(fd); }
+      }
+    }
+  }
+  if (crashed >= 6) J.line("stopped after 6 crashed histories");
+  return 0;
 }
